@@ -346,6 +346,25 @@ def end_compare(p, i, r):
     return None
 
 
+def path_truth(p, t):
+    """truth of a returned condition on this path: a constant, or the value the path's own decisions gave the same atom"""
+    s_ = sx.show(t)
+    if s_ in ("0", "false"):
+        return False
+    if s_ in ("1", "true"):
+        return True
+    neg = False
+    while isinstance(t, tuple) and t and t[0] == "not":
+        t, neg = t[1], not neg
+    for a, b in p.decisions:
+        na = False
+        while isinstance(a, tuple) and a and a[0] == "not":
+            a, na = a[1], not na
+        if a == t:
+            return (b != na) != neg
+    return None
+
+
 def rule_wrap(rep, db, cfg):
     def each(short):
         seen = set()
@@ -458,13 +477,14 @@ def rule_wrap(rep, db, cfg):
             eq = end_compare(p, i, r)
             er = [e for j, e in enumerate(p.events, 1) if e[0].split("<")[0].endswith("::erase")]
             out = sx.show(p.outcome[1])
+            outv = path_truth(p, p.outcome[1])
             if eq is None:
                 why = "the new end is not compared with end()"
-            elif eq and (er or out not in ("0", "false")):
+            elif eq and (er or outv is not False):
                 why = "nothing to remove but the container is modified / the result is %s" % out
             elif not eq:
                 a = [sx.show(y) for y in er[0][1]] if len(er) == 1 else []
-                if len(a) != 3 or a[0] != r or ("#%d:remove_if" % i) not in a[1] or not re.search(r"#\d+:end", a[2]) or out not in ("1", "true"):
+                if len(a) != 3 or a[0] != r or ("#%d:remove_if" % i) not in a[1] or not re.search(r"#\d+:end", a[2]) or outv is not True:
                     why = "the removed tail is not erased as erase(new end, end()) with result true: %s -> %s" % (a, out)
             rows.add(eq)
             if why:
